@@ -198,7 +198,20 @@ func (s *sortedSys) culprit(byCounters bool) (shape, descr string) {
 	h := &sortedSys{uni: s.uni, dir: mc.TempDir("c05sc")}
 	defer h.destroy()
 	var lastBefore refE
+	// a reopen of the sorted map is compared with the totals the sorted map itself held since it
+	// was loaded: only prefixes that contain the seal are the same comparison
+	minN := 0
+	if last != "seal" {
+		for i, e := range hist {
+			if e == "seal" {
+				minN = i + 1
+			}
+		}
+	}
 	n := firstFailing(len(hist), func(n int) bool {
+		if n < minN {
+			return false
+		}
 		h.reset()
 		sealed := false
 		for i, e := range hist[:n] {
